@@ -1,7 +1,7 @@
 """C19 — topological sort: correct order, cycles exactly reported (util/topological.py)."""
 import contracts.topological  # noqa: F401
 from pyvc.contract import FUNCS
-from vlib.proof import run_proofs
+from vlib.proof import run_proofs, check_lemmas
 from vlib.bounded import run_bounded
 
 LEVEL = "proof"
@@ -11,6 +11,7 @@ BOUNDED_KEYS = [k for k, c in FUNCS.items() if "C19" in c.props]
 
 def run(run, tier, seed, args):
     run_proofs(run, KEYS, tier, update_baseline=args.update_baseline, source_root=args.source_root)
+    check_lemmas(run, tier)
     if not args.source_root:
         run_bounded(run, BOUNDED_KEYS, tier)
     run.assumptions += [
